@@ -158,3 +158,26 @@ Qed.
 (* the model can express a write: a non-read-only op does change the buffer *)
 Lemma write_changes_buffer : s_buf (exec [OSeek 0; OWrite [7]] (mkStream [1;2] 2)) <> [1;2].
 Proof. vm_compute. intro H. discriminate H. Qed.
+
+(* ======================================================================= Part D *)
+Lemma after_history_frame hist g : forallb writes_nothing hist = true -> after_history hist g = g.
+Proof.
+  unfold after_history. revert g; induction hist as [|e hist IH]; simpl; intros g H; [reflexivity|].
+  apply andb_true_iff in H as [H1 H2]. unfold writes_nothing in H1.
+  destruct (fx_writes e); [|discriminate]. simpl. apply IH, H2.
+Qed.
+
+Lemma history_independent {R} (f : registry -> str -> R) h1 h2 g x :
+  forallb writes_nothing h1 = true -> forallb writes_nothing h2 = true ->
+  extract_after f h1 g x = extract_after f h2 g x.
+Proof. intros H1 H2. unfold extract_after. rewrite (after_history_frame h1 g H1), (after_history_frame h2 g H2). reflexivity. Qed.
+
+(* one import-time write (".emf" -> "image/x-emf") and a reader that looks the key up *)
+Definition lookup_ct (g : registry) (x : str) : option str := assoc x g.
+Lemma history_dependent :
+  exists (hist : list effect) (g : registry) (x : str),
+    extract_after lookup_ct hist g x <> extract_after lookup_ct [] g x.
+Proof.
+  exists [mkFx [(s ".emf", s "image/x-emf")]], [(s ".emf", s "image/emf")], (s ".emf").
+  vm_compute. intro H. discriminate H.
+Qed.
